@@ -8,6 +8,14 @@ KERNEL_NOTE = ('Trusted: pyvc itself (executor semantics of the Python subset, h
 BOUNDED_NOTE = ('Bounded stand-in only (labelled as such, never counted as proved): oracle written from the property text, real library run on an '
                 'enumerated small scope stated in the evidence (rule/bound). Nothing beyond the bound is covered.')
 
+DAG = ("The PREFIX of temporal_dag (the code up to the head of its main loop) is under contract and proved for all graphs of both classes and every "
+       "start/end combination: without snapshots it returns an empty DAG and no sources/targets (and only then returns early); ValueError is raised exactly when "
+       "not (first id <= start' <= end' <= last id) (start', end' = the given bounds or the first / last id) and no other exception; at the loop head the ids that will be "
+       "visited are exactly the snapshot ids q with start' <= q <= end', ascending, each once - the window is taken by VALUE, not by list position; G is not "
+       "modified (modular against temporal_snapshots_ids). The main loop (string-encoded node occurrences, a plain networkx DiGraph) and everything after it is not under contract. ")
+DAGNOTE = (' Deductive part: trusted pyvc/z3, Python int = mathematical integers, min()/max() of a non-empty int list by contract, the key set of G.snapshots finite; '
+           'temporal_snapshots_ids by its verified contract (C04).')
+
 CLAIMS = {
     'C01': {'level': 'other', 'technique': 'contract-based deductive verification (pyvc: AST symbolic execution -> z3/cvc5 VCs) of add_interaction x2, __presence_test x2, has_interaction x2; bounded stand-in for the bulk helpers',
             'text': 'Every path of the real add_interaction (both classes, t/e present or None) is enumerated from /repo source and the clauses presence_union '
@@ -58,18 +66,21 @@ CLAIMS = {
     'C11': {'level': 'other', 'technique': 'contract-based deductive verification (pyvc) of node_link_data (links multiset, node entries, directedness; modular against the listing contract); bounded stand-in (real json.dumps/loads) for serialisability and node_link_graph',
             'text': 'node_link_data is proved to record directedness, to list exactly one entry per node (isolated ones included) and exactly one link {source,target,time} per listed interaction and per instant at which it is present, oriented as the listing (directed: out_interactions_iter), without modifying G; node entries (attributes + id) are kept opaque. Bounded: directed flag, nodes incl. isolated ones and attributes, one link per interaction and instant with orientation, rebuilt class/nodes/attributes/presence, '
                     'custom attrs id, directed argument used only when the data does not say.', 'note': KERNEL_NOTE + ' json.dumps/loads, attribute dict contents and node_link_graph are bounded only.'},
-    'C12': {'level': 'exploration', 'technique': 'bounded stand-in (clause-by-clause path checker from the property text on all small temporal graphs)',
-            'text': 'Every returned path of time_respecting_paths / all_time_respecting_paths checked against each clause of the property on all 511 undirected presence '
-                    'relations over 3 nodes x 3 instants, directed and shifted variants, string ids, random larger graphs.', 'note': BOUNDED_NOTE},
-    'C13': {'level': 'exploration', 'technique': 'bounded stand-in (brute-force enumeration); the deductive technique does not decide completeness (external all_simple_paths + protocol-level invariant)',
-            'text': 'Result compared with a brute-force enumerator written from C12 on the same spaces; empty result when u absent at start; sample<1 subset; '
-                    'all_time_respecting_paths against per-source calls. Known finding D19 (self-loop hops).', 'note': BOUNDED_NOTE},
+    'C12': {'level': 'exploration', 'technique': 'bounded stand-in (clause-by-clause path checker from the property text on all small temporal graphs); side clauses by contract-based deductive verification (pyvc) of the window prefix of temporal_dag',
+            'text': DAG + 'Bounded (what decides the property): '
+                    'Every returned path of time_respecting_paths / all_time_respecting_paths checked against each clause of the property on all 511 undirected presence '
+                    'relations over 3 nodes x 3 instants, directed and shifted variants, string ids, confusable ids / instants (node 1 at instant 11 vs node 11 at instant 1), planted walks, random larger graphs.', 'note': BOUNDED_NOTE + DAGNOTE},
+    'C13': {'level': 'exploration', 'technique': 'bounded stand-in (brute-force enumeration); the deductive technique does not decide completeness (external all_simple_paths + protocol-level invariant); side clauses by contract-based deductive verification (pyvc) of the window prefix of temporal_dag',
+            'text': DAG + 'Bounded (what decides the property): '
+                    'Result compared with a brute-force enumerator written from C12 on the same spaces; empty result when u absent at start; sample<1 subset; '
+                    'all_time_respecting_paths against per-source calls. Known finding D19 (self-loop hops).', 'note': BOUNDED_NOTE + DAGNOTE},
     'C14': {'level': 'proof', 'technique': 'contract-based deductive verification (pyvc) of annotate_paths (loop invariant over the processed prefix, modular against path_length / path_duration), path_length, path_duration',
             'text': 'annotate_paths is proved for every non-empty list of non-empty paths: shortest / fastest / foremost list exactly the input paths that minimise hop count / duration / arrival (loop invariant: running minimum attained and a lower bound, the list holds exactly the minimal positions of the prefix), fastest_shortest / shortest_fastest are exactly the best members of shortest / fastest (dict comprehension keyed by content, min over its values, filter), every listed path is an input path, no exception; path_length = hop count and path_duration = last minus first time. A path is abstracted to what the function reads (hop count, first and last time, identity under ==). The bounded part re-checks annotate_paths / path_length / path_duration compared with set comprehensions from the property text over generated path lists.',
             'note': 'Trusted: pyvc itself and z3; copy.copy(p) == p; min() over dict values; dict comprehension keyed by tuple(path) collapses equal contents; list vs tuple representation of a path is not distinguished (sets of paths are compared by content). ' + BOUNDED_NOTE},
-    'C15': {'level': 'exploration', 'technique': 'bounded stand-in (DAG checker from the property text on all small temporal graphs, all roots/targets/windows)',
-            'text': 'Acyclicity, edge soundness, window, sources/targets, ValueError for invalid windows, empty DAG without snapshots; ids not 0-based, negative, with gaps. '
-                    'Known finding D19 (self-loop on the root).', 'note': BOUNDED_NOTE},
+    'C15': {'level': 'other', 'technique': 'contract-based deductive verification (pyvc) of the window prefix of temporal_dag (empty case, ValueError iff improper window, ids visited = snapshot ids inside the window by value); bounded stand-in (DAG checker from the property text on all small temporal graphs, all roots/targets/windows) for the DAG structure',
+            'text': DAG + 'Bounded: '
+                    'Acyclicity, edge soundness, window, sources/targets, ValueError for invalid windows, empty DAG without snapshots; ids not 0-based, negative, with gaps. '
+                    'Known finding D19 (self-loop on the root).', 'note': BOUNDED_NOTE + DAGNOTE},
     'C16': {'level': 'other', 'technique': 'contract-based deductive verification (pyvc) of DynGraph.to_directed, modular: against the contracts of the DynDiGraph constructor, add_interaction (caller side) and the flattened iterator; bounded stand-in for to_undirected and isolation',
             'text': 'to_directed is proved for all graphs: result class, node set and node/graph attributes kept, presence of the listed orientation = presence in G for every pair and instant, every add_interaction call site satisfies the callee precondition (t an int - not an aliased interval list -, e > t, never rejected), G unchanged, result written only through contracted operations (typestate). The property clause "both orientations" is known finding D09b. Bounded: class, nodes kept, presence relation per the property (union / reciprocal intersection / both directions), source unchanged, result well formed, deep-copy '
                     'isolation incl. growing a run of the result in place. Known finding D09b (to_directed creates one direction).', 'note': KERNEL_NOTE + ' Trusted models: networkx add_nodes_from(graph) (new-node rows only, per the C19 frame analysis), copy.deepcopy (equal value, no sharing).'},
@@ -87,16 +98,21 @@ CLAIMS = {
                     'representation. The dynamic sweep (every callable x synthesised arguments x small states) is the bounded part. Known finding D21.',
             'note': 'Trusted: the conservative taint rules of pyvc/frames.py (aliases through local names, .values()/.items(), iteration; a write through an object attribute '
                     'other than self is not seen), inspect.getsource of the installed networkx, the decorator package signature binding. ' + BOUNDED_NOTE},
-    'C20': {'level': 'exploration', 'technique': 'bounded stand-in; range over IEEE doubles and the two relabelling invariances (2-safety) are not decidable by contracts here',
-            'text': 'Score range, key set, None for empty window, invariance under label-value and node-id renaming, single-label value, sliding = per-snapshot calls stamped '
-                    't+delta, on labelled small DynGraphs for the five path types.', 'note': BOUNDED_NOTE},
+    'C20': {'level': 'other', 'technique': 'contract-based deductive verification (pyvc) of sliding_delta_conformity, modular against an assumed contract of delta_conformity (four nested loop invariants over a ghost count/value array); bounded stand-in for delta_conformity itself: range over IEEE doubles and the two relabelling invariances (2-safety) are not decidable by contracts here',
+            'text': 'sliding_delta_conformity is proved for all graphs of both classes, every delta and both call styles (all arguments / documented defaults): every call of delta_conformity '
+                    'passes the caller\'s own dg, delta, alphas, labels, profile_size, hierarchies, path_type and sample (positional or keyword); the result holds, for every alpha key, '
+                    'attribute key, node and stamp s, exactly one pair stamped s iff s - delta is a snapshot id with s < last id whose delta_conformity result is not None and has that '
+                    'entry, the paired value being that entry; no exception; dg not modified. Not covered by the proof: the order of the pairs inside one list; delta_conformity itself '
+                    '(assumed: its result is a function of start for fixed other arguments). Bounded: '
+                    'Score range, key set, None for empty window, invariance under label-value and node-id renaming, single-label value, sliding = per-snapshot calls stamped '
+                    't+delta, on labelled small DynGraphs (incl. planted walks with mixed labels) for the five path types.', 'note': BOUNDED_NOTE + ' Deductive part: trusted pyvc/z3; tqdm(x) iterates x; list(d.items()) lists each item of a dict once; delta_conformity by ASSUMED contract (not verified); temporal_snapshots_ids by its verified contract (C04).'},
 }
 
 NOT_CLAIMED = {}
 
 NOTES = ('Technique family: contract-based deductive verification of the real code. pyvc re-extracts every function from /repo on every run (ast), contracts are sidecar '
          'modules under contracts/ (no hook in /repo). Levels: other = mixed (evidence: obligations/discharged for the proved clauses, bounded[] for the stand-in parts with '
-         'their bound); exploration = bounded stand-in only (the property has no function under contract yet, or - C13, C20 and the file/codec parts of C09-C11 - the technique '
+         'their bound); exploration = the property itself is decided by the bounded stand-in only (C12, C13: only the window prefix of temporal_dag is under contract; C13, the numeric part of C20 and the file/codec parts of C09-C11: the technique '
          'cannot decide it; see DESIGN.md). Known findings: known_findings.json (KNOWN-FINDING lines, exit 0). Sub-claims that contract-based verification cannot decide here: '
          'C13 completeness (equality with a brute-force enumeration over an external all_simple_paths), C20 range over floats and relabelling invariances, byte-level / '
          'compressed-file behaviour in C09/C10, json.dumps in C11: bounded only, said so in the evidence.')
